@@ -129,6 +129,67 @@ def _proc(arg):
 V1, V2, V1B, VQ = node1.__wrapped__() if hasattr(node1, "__wrapped__") else "value-of-node1", {"value-of-node2": [5, None]}, "value-of-node1-second-version", {"value-of-node2": [7, None]}
 
 
+def _default_proc(arg):
+    """A process on the default local store: `how` = "implicit" (dds.set_store is never called), "explicit" (set_store("local")
+    without directories) or "explicit-cached" (the same with cache_objects=True); the system's temporary directory is `tmp`."""
+    tmp, how, actions = arg
+    import tempfile
+
+    import dds
+    from dds import _api
+
+    tempfile.tempdir = tmp
+    _api._store_var = None
+    dds.accept_module("checks")
+    obs = []
+    if how != "implicit":
+        dds.set_store("local", cache_objects=True if how == "explicit-cached" else None)
+    for act in actions:
+        vlog.clear()
+        try:
+            if act == "keep1":
+                r = dds.keep("/c16/x/one", node1)
+            elif act == "keep1_v2":
+                r = dds.keep("/c16/x/one", node1_v2)
+            else:
+                r = dds.load("/c16/x/one")
+            obs.append((act, "ok", r, vlog.snapshot()))
+        except BaseException as e:
+            obs.append((act, "exc", "%s: %s" % (type(e).__name__, str(e)[:150]), vlog.snapshot()))
+    return obs
+
+
+def default_store_job(arg, prop="C16"):
+    """The all-default configuration is one store whichever way a process arrives at it: never calling set_store, or calling
+    set_store("local") without directories (with or without the object cache). What one process keeps the other loads, and
+    keeps again without executing anything."""
+    first, second = arg
+    rep = core.Report(prop)
+    rep.evaluations = 1
+    case = {"default_store": True, "first": first, "second": second}
+    with core.Scratch("vp_c16d_") as td:
+        a = core.fork_call(_default_proc, (td, first, ["keep1", "load"]), timeout=300)
+        b = core.fork_call(_default_proc, (td, second, ["load", "keep1", "keep1_v2", "load"]), timeout=300)
+        c = core.fork_call(_default_proc, (td, first, ["load", "keep1_v2"]), timeout=300)
+    if any(isinstance(x, core.JobFailed) for x in (a, b, c)):
+        rep.inconclusive.append("default-store job: %r %r %r" % (a, b, c))
+        return rep
+    want = [(a, "first process (%s)" % first, [("keep1", V1, None), ("load", V1, None)]),
+            (b, "second process (%s)" % second, [("load", V1, []), ("keep1", V1, []), ("keep1_v2", V1B, None), ("load", V1B, None)]),
+            (c, "third process (%s again)" % first, [("load", V1B, []), ("keep1_v2", V1B, [])])]
+    for obs, who, exp in want:
+        for (act, st, r, lg), (eact, ev, elog) in zip(obs, exp):
+            rep.count("observations")
+            if st != "ok" or r != ev:
+                rep.violate("default local store, %s: %s gives %r, expected %r" % (who, act, r if st == "ok" else (st, r), ev), case, mechanism="default-store-not-one-store")
+                return rep
+            if elog is not None and lg != elog:
+                rep.violate("default local store, %s: %s executed %r although another process on the same default store had kept it" % (who, act, lg), case, mechanism="default-store-not-one-store")
+                return rep
+    rep.nontriv(("c16default", first, second))
+    return rep
+
+
 def mech(iform, dform, what):
     if "relative" in (iform, dform):
         return "relative-directory"
@@ -455,7 +516,7 @@ def run(tier, seed):
     rep.rule = (
         "internal_dir x data_dir forms %r (all combinations) x cache_objects %r; per configuration: process A keeps two nodes, loads, re-keeps, chdirs, loads and re-keeps again; "
         "process B (other cwd, absolute real paths) and process C (same cwd and spelling) load and re-keep with an empty execution log; two-view scripts (one internal dir, two data dirs) in one process and "
-        "with one process per view switch; and opening further stores on directories that hold the files of a writer in mid-flight (nothing that exists may disappear or change); the same directory names configured twice in one process around a re-pointed `current` link; set_store with only some of the directories given; one data directory used with two internal directories in turn, the first one removed afterwards. distinct_nontrivial = distinct configurations whose processes were all observed." % (FORMS, CACHE)
+        "with one process per view switch; and opening further stores on directories that hold the files of a writer in mid-flight (nothing that exists may disappear or change); the same directory names configured twice in one process around a re-pointed `current` link; set_store with only some of the directories given; one data directory used with two internal directories in turn, the first one removed afterwards; the all-default store reached implicitly (set_store never called) and explicitly (set_store('local') without directories, with and without the object cache) by different processes. distinct_nontrivial = distinct configurations whose processes were all observed." % (FORMS, CACHE)
     )
     jobs = []
     for i, iform in enumerate(FORMS):
@@ -486,7 +547,12 @@ def run(tier, seed):
     for ci, c in enumerate((None, 3, True)):
         jobs.append(("takeover", (progs.base_program("c16t%d" % ci, layout=("three", "one", "deep")[ci]), c, ci)))
 
+    for first, second in (("implicit", "explicit"), ("explicit", "implicit"), ("implicit", "explicit-cached"), ("explicit-cached", "implicit"), ("explicit", "explicit-cached")):
+        jobs.append(("default", (first, second)))
+
     def dispatch(j):
+        if j[0] == "default":
+            return default_store_job(j[1])
         if j[0] == "takeover":
             from checks import c04
 
@@ -508,7 +574,9 @@ def run(tier, seed):
 def replay(payload):
     rep = core.Report("C16")
     c = payload["case"]
-    if c.get("moved_internal"):
+    if c.get("default_store"):
+        rep.merge(default_store_job((c["first"], c["second"])))
+    elif c.get("moved_internal"):
         from checks import c04
 
         rep.merge(c04.moved_internal_job((c["program"], c["cache"], c["idx"]), prop="C16"))
